@@ -4,7 +4,8 @@ import Kdf.Model.Read
 The page oracle is given explicitly (it was discovered by single-page reads of
 the implementation, see tools/props/c12.py):
 ```
-open <path> <ps>                 reset; page size
+open <path> <ps>                 reset; page size (0: the dump opens without a known page size)
+setps <ps>                   ->  > setps ok      the page size becomes known (arch.page_size is set)
 pg <as> <pageaddr> <hex>         page of address space as at pageaddr has these bytes
 miss <as> <status>               status of every other page of address space as
 read <as> <addr> <len>       ->  > <status> <len> <fnv of delivered bytes>
@@ -55,14 +56,17 @@ partial def loop (h : IO.FS.Stream) (s : St) : IO Unit := do
     let a := as.toNat!; let v := statusOf st; let old := s.miss
     loop h { s with miss := fun x => if x = a then v else old x }
   | ["read", as, addr, len] =>
-    let (st, out) := readLocked s.ps (oracle s) as.toNat! addr.toNat! len.toNat!
+    let (st, out) := readApi s.ps (oracle s) as.toNat! addr.toNat! len.toNat!
     IO.println s!"> {showStatus st} {out.length} {fnv out}"
     loop h s
   | ["str", as, addr] =>
-    match readString s.ps (oracle s) as.toNat! addr.toNat! (fun _ => true) 100000 with
+    match readStringApi s.ps (oracle s) as.toNat! addr.toNat! (fun _ => true) 100000 with
     | (st, some str) => IO.println s!"> {showStatus st} {str.length} {fnv str}"
     | (st, none) => IO.println s!"> {showStatus st} - -"
     loop h s
+  | ["setps", ps] =>
+    IO.println "> setps ok"
+    loop h { s with ps := ps.toNat! }
   | ["kphys_off", _] => loop h s
   | ["cache", _] => loop h s
   | _ => IO.println "> bad-op"; loop h s
